@@ -127,5 +127,9 @@ func (*Service) processorToConfig(p *processor.Instance) config.Processor {
 		Plugin:   p.Plugin,
 		Settings: p.Config.Settings,
 		Workers:  p.Config.Workers,
+		// the condition is part of the processor's configuration: without it a
+		// Plan right after an import is never empty and the rollback of a failed
+		// import re-creates a deleted processor without its condition
+		Condition: p.Condition,
 	}
 }
